@@ -155,7 +155,7 @@ pub fn run(cfg: &RunCfg) -> (PropMeta, ShardOut, Map<String, Value>) {
         rule: "random mapping tables (1..40 definitions over 1..4-byte prefix-free code sets; bfchar, single-target incrementing ranges with 1..4-unit targets incl. surrogate pairs, array-target ranges; definitions started next to / inside / on top of earlier ones, some repeating the destination of that earlier one, so adjacency, overlap and overriding occur) rendered as CMap text with random sectioning (<=100 entries per section), EOL style, spacing and hex case, optionally Flate-compressed, reached through a font dictionary with Encoding Identity-H / Identity-V / absent; every mapped code (up to 600) decoded on its own plus mixed strings. Expected text = model targets decoded as UTF-16. distinct = distinct CMap texts.".into(),
         assumptions: vec![
             "targets are well-formed UTF-16 and range increments stay inside the BMP block / low-surrogate block they start in (so lossy decoding cannot blur the comparison)".into(),
-            "code sets are prefix-free across code lengths (first-byte partition), three ranges in four vary only their last byte, the others may run across 256-code blocks (merged ranges, identity maps)".into(),
+            "code sets are prefix-free across code lengths (the first bytes are split into four quarters, assigned to the code lengths in a rotation chosen per CMap, so long codes may begin with 00 bytes), three ranges in four vary only their last byte, the others may run across 256-code blocks (merged ranges, identity maps)".into(),
         ],
         exhaustive: false,
         min_distinct: 500,
